@@ -43,6 +43,15 @@ for i, m in enumerate(muts):
         for d in os.listdir(f"{V}/build"):
             pass
 # keep a record of the last full run (read by scripts/detection.py)
+if args and os.path.exists(f"{V}/mutants/results.json"):
+    # a partial run updates the entries it re-ran
+    rec = json.load(open(f"{V}/mutants/results.json"))
+    by = {x["name"]: x for x in rec["results"]}
+    for n, c, s in results:
+        by[n] = {"name": n, "property": sigs_by[n][0], "caught": c, "suite": s if s is not None else by.get(n, {}).get("suite"), "signatures": sigs_by[n][1]}
+    order = [json.loads(l)["name"] for l in open(f"{V}/mutants/mutants.jsonl") if l.strip() and not l.startswith("#")]
+    rec["results"] = [by[n] for n in order if n in by]
+    json.dump(rec, open(f"{V}/mutants/results.json", "w"), indent=1)
 if not args:
     rec = {"repo_head": subprocess.run(["git", "-C", "/repo", "rev-parse", "--short", "HEAD"], capture_output=True, text=True).stdout.strip(),
            "results": [{"name": n, "property": sigs_by[n][0], "caught": c, "suite": s, "signatures": sigs_by[n][1]} for n, c, s in results]}
